@@ -33,6 +33,7 @@ PROPS = {
                  "lastApplied, observed has a field in neither, and the triple has a list-map, a removal, a type clash or a "
                  "reordered list-map; distinct = distinct choice sequences among the non-trivial cases"),
         "jobs": [
+            {"name": "regress", "pkg": COMMON, "tests": ["TestVerifC05Regressions"]},
             {"name": "merge-exh", "pkg": COMMON, "tests": ["TestVerifC05MergeExhaustive"],
              "timeout": {"quick": 600, "thorough": 3000}},
             {"name": "merge-rand", "pkg": COMMON, "tests": ["TestVerifC05MergeRandom"],
@@ -40,5 +41,27 @@ PROPS = {
             {"name": "apply-rand", "pkg": COMMON, "tests": ["TestVerifC05ApplyUpdateRandom"],
              "checks": {"quick": 40000, "thorough": 2000000}, "shards": {"quick": 4, "thorough": 12}},
         ],
+    },
+    "C06": {
+        "level": "exploration", "sim": True,
+        "technique": "property-based testing (rapid): generated controller configs, hook programs and child perturbations; oracle = request log of the API-server simulator judged against an independent reference merge and the strategy table",
+        "level_text": "one sync per generated case against the simulated API server through the real clients; every child's requests are compared with what the strategy table allows; exploration of the configuration x perturbation space",
+        "rule": ("rapid-generated cases: controller config (parent scope, 1-2 child kinds in core/named groups, every update method incl. unset and unknown, generateSelector) x hook program x per-child perturbation "
+                 "(none, owned-field drift, foreign field, status-only, pending deletion, pending deletion + drift, externally deleted) x program change (none, content, child dropped, child added); "
+                 "non-trivial = at least one existing desired child differs from its reference-merged desired state (the strategy switch is reached); distinct = distinct choice sequences"),
+        "jobs": [
+            {"name": "c06-composite", "pkg": COMPOSITE, "tests": ["TestVerifC06Composite"],
+             "checks": {"quick": 1500, "thorough": 60000}, "shards": {"quick": 6, "thorough": 12}},
+        ],
+    },
+    "C13": {
+        "level": "exploration", "sim": True,
+        "technique": "property-based testing: grammar-generated malformed hook responses + native go fuzzing; oracle = no panic and no child write on a rejected response",
+        "level_text": "generated near-valid and hostile hook responses are fed through the real webhook executor into real syncs against the simulator; the oracle is crash-freedom plus absence of child writes after a rejected response",
+        "rule": "work in progress: currently the hand-written regression cases for repaired panics",
+        "jobs": [
+            {"name": "c13-regress", "pkg": COMPOSITE, "tests": ["TestVerifC13Regressions"]},
+        ],
+        "disabled": "generated check for C13 not built yet; only regression cases exist",
     },
 }
